@@ -95,8 +95,13 @@ ScanResult Theo::scan(std::map<FileName, FileContent> files, FileName main) {
     }
     res.push_back(t);
   }
-  res.push_back(
-      Theo::Token{Theo::Token::T_EOF, "EOF", res.back().file, res.back().line});
+  if (res.empty())
+    res.push_back(Theo::Token{Theo::Token::T_EOF, "EOF",
+                              files.contains(main) ? main : "-",
+                              files.contains(main) ? 1 : -1});
+  else
+    res.push_back(Theo::Token{Theo::Token::T_EOF, "EOF", res.back().file,
+                              res.back().line});
   return {res, errors};
 }
 
